@@ -516,7 +516,8 @@ fn convert_intensity(p: &mut Point) {
 struct Range {
     min: f64,
     max: f64,
-    inv_range: f64,
+    scale: f64,
+    range: f64,
 }
 
 impl Range {
@@ -562,18 +563,18 @@ impl Range {
     }
 
     fn from_min_max(min: f64, max: f64) -> Result<Self> {
-        // Halved values avoid an overflow to infinity for very large ranges
-        let range = max * 0.5 - min * 0.5;
         // This also rejects NaN values, they would cause a panic when clamping values later
-        if !(range >= 0.0) {
+        if !(min <= max) || min.is_infinite() || max.is_infinite() {
             Error::invalid(format!("Found invalid range: min={min}, max={max}"))?;
         }
-        // A degenerate range with min=max normalizes all values to zero
-        let inv_range = if range > 0.0 { 1.0 / range } else { 0.0 };
+        // Halved values avoid an overflow to infinity for very large ranges
+        let scale = if (max - min).is_finite() { 1.0 } else { 0.5 };
+        let range = max * scale - min * scale;
         Ok(Self {
             min,
             max,
-            inv_range,
+            scale,
+            range,
         })
     }
 
@@ -670,9 +671,14 @@ impl Range {
 
     #[inline]
     fn normalize(&self, value: f64) -> f32 {
-        let clamped = value.clamp(self.min, self.max);
-        let normalized = (clamped * 0.5 - self.min * 0.5) * self.inv_range;
-        normalized as f32
+        // A degenerate range with min=max normalizes all values to zero
+        if self.range > 0.0 {
+            let clamped = value.clamp(self.min, self.max);
+            let normalized = (clamped * self.scale - self.min * self.scale) / self.range;
+            normalized as f32
+        } else {
+            0.0
+        }
     }
 }
 
